@@ -1074,6 +1074,17 @@ def h_quantifier(mode, outer_is):
     def h(ctx, p):
         nm = ctx.body.name
         E, st, z = p.E, p.st, p.z
+        if p.val[0] == 'boolc':
+            # the result IS an integer comparison (e.g. `.. && self.len() == other.len()`): both outcomes
+            # are separate paths
+            for truth in (True, False):
+                s2 = st.fork()
+                if E.assume_cond(s2, p.val[1], truth):
+                    s2.log('cond', p.val[1], truth)
+                    q = Path(E, p.body, s2, ('bool', truth), p.subjects, p.arg)
+                    q.self0, q.subjects_all, q.args0, q.idx0, q.variant_fields = p.self0, p.subjects_all, p.args0, None, {}
+                    h(ctx, q)
+            return
         A = p.subjects_all[0][0] if p.subjects_all and p.subjects_all[0] else None
         B = p.subjects_all[1][0] if len(p.subjects_all) > 1 and p.subjects_all[1] else None
         if A is None or B is None or A == B:
@@ -1111,23 +1122,38 @@ def h_quantifier(mode, outer_is):
             return
         if is_bool(p.val, False):
             ctx.classes['false'] += 1
+            conds0 = [e for e in p.events if e[0] == 'cond']
+            def on_lens(c):
+                while c[0] == 'Not':
+                    c = c[1]
+                if len(c) != 3 or isinstance(c[1], tuple) or isinstance(c[2], tuple):
+                    return False
+                x, y = c[1], c[2]
+                return (z.entails_eq(x, ma.len0) and z.entails_eq(y, mb.len0)) or \
+                    (z.entails_eq(y, ma.len0) and z.entails_eq(x, mb.len0))
+            if mode in ('eq', 'seteq') and not z.entails_eq(ma.len0, mb.len0) and any(on_lens(e[1]) for e in conds0):
+                # the two lengths were compared on this path and are not equal: false is justified
+                # wherever in the function that comparison stands
+                ctx.classes['shortcut'] += 1
+                return
             pr = _probe(E, st, tail)
             if pr is not None:
-                X, kind, h, probe = pr
+                X, kind, hh, probe = pr
                 src = probe if (isinstance(probe, tuple) and len(probe) == 4 and probe[0] == 'slot'
                                 and probe[1] != X) else None
                 if mode == 'disjoint':
                     ok = kind == 'hit' and src is not None
                     why = 'false requires an element of one operand that was found in the other'
                 elif mode == 'subset':
-                    ok = kind == 'miss' and src is not None
+                    # (a lookup in an empty container misses without any comparison: probe is None)
+                    ok = kind == 'miss' and (src is not None or probe is None)
                     why = 'false requires an element of the scanned operand that was looked up in the other and not found'
                 else:
-                    ok = (kind == 'miss' and src is not None) or (
+                    ok = (kind == 'miss' and (src is not None or probe is None)) or (
                         kind == 'hit' and src is not None
-                        and _value_eq_answer(tail, X, h, src[1], src[2], z) is False)
+                        and _value_eq_answer(tail, X, hh, src[1], src[2], z) is False)
                     why = 'false requires a key missing from the other operand or two values that compared unequal'
-                ctx.req('POL', ok, nm + ':false', why, p)
+                ctx.req('POL', ok, nm + ':false', why + ' (lookup seen: %r)' % (pr,), p)
                 return
             # no lookup on the deciding part of the path: a length shortcut
             ctx.classes['shortcut'] += 1
@@ -1946,7 +1972,7 @@ def required_classes(key):
     if key[2] == 'deserialize' and key in HANDLERS:
         return {'done'}
     if key[2] in ('eq', 'is_subset', 'is_superset', 'is_disjoint') and key in HANDLERS:
-        return {'true', 'false'} | ({'shortcut'} if key[2] in ('eq', 'is_subset', 'is_superset') else set())
+        return {'true', 'false'}
     if key[2] == 'clone' and key[0] in (MAP, SET):
         return {'cloned'}
     if key[2] in ('from_iter', 'from') and key in HANDLERS:
